@@ -13,13 +13,32 @@
 #include <string.h>
 #include <unistd.h>
 
+/* Two build modes: LD_PRELOAD library (default) or, with -DSHIM_WRAP, linked
+ * into a static executable with -Wl,--wrap=write,--wrap=readdir,--wrap=closedir
+ * (static binaries ignore LD_PRELOAD). */
+#ifdef SHIM_WRAP
+ssize_t __real_write(int, const void *, size_t);
+struct dirent *__real_readdir(DIR *);
+int __real_closedir(DIR *);
+#define write __wrap_write
+#define readdir __wrap_readdir
+#define closedir __wrap_closedir
+#define RESOLVE_WRITE() (real_write = __real_write)
+#define RESOLVE_READDIR() (real_readdir = __real_readdir)
+#define RESOLVE_CLOSEDIR() (real_closedir = __real_closedir)
+#else
+#define RESOLVE_WRITE() (real_write = (ssize_t(*)(int, const void *, size_t)) dlsym(RTLD_NEXT, "write"))
+#define RESOLVE_READDIR() (real_readdir = (struct dirent * (*) (DIR *) ) dlsym(RTLD_NEXT, "readdir"))
+#define RESOLVE_CLOSEDIR() (real_closedir = (int (*)(DIR *)) dlsym(RTLD_NEXT, "closedir"))
+#endif
+
 static ssize_t (*real_write)(int, const void *, size_t);
 
 ssize_t
 write(int fd, const void *buf, size_t n)
 {
 	if (!real_write)
-		real_write = (ssize_t(*)(int, const void *, size_t)) dlsym(RTLD_NEXT, "write");
+		RESOLVE_WRITE();
 	const char *m = getenv("SHIM_SHORT");
 	if (m != NULL && fd >= 3 && n > 1) {
 		size_t k = (m[0] == 'h') ? n / 2 : n - 1;
@@ -50,7 +69,7 @@ struct dirent *
 readdir(DIR *dir)
 {
 	if (!real_readdir)
-		real_readdir = (struct dirent * (*) (DIR *) ) dlsym(RTLD_NEXT, "readdir");
+		RESOLVE_READDIR();
 	const char *m = getenv("SHIM_READDIR");
 	if (m == NULL)
 		return real_readdir(dir);
@@ -90,7 +109,7 @@ int
 closedir(DIR *dir)
 {
 	if (!real_closedir)
-		real_closedir = (int (*)(DIR *)) dlsym(RTLD_NEXT, "closedir");
+		RESOLVE_CLOSEDIR();
 	for (int i = 0; i < 8; i++)
 		if (ds[i].dir == dir)
 			ds[i].dir = NULL;
